@@ -161,7 +161,9 @@ class Check:
                 'mixed-ids': {'1.mos.xml': ro, '3.mos.xml': ro2, '9.mos.xml': rd},
                 'no-create': {'5.mos.xml': app, '9.mos.xml': rd},
                 'garbage': {'1.mos.xml': ro, '7.mos.xml': 'not xml', '9.mos.xml': rd},
-                'missing': {'1.mos.xml': ro, '8.mos.xml': None, '9.mos.xml': rd}}
+                'missing': {'1.mos.xml': ro, '8.mos.xml': None, '9.mos.xml': rd},
+                'equal-ids': {'1.mos.xml': ro, 'z-first.mos.xml': to_text(story_append(5, [gens.new_story('ZF')])),
+                              'a-second.mos.xml': to_text(story_append(5, [gens.new_story('AS')])), '9.mos.xml': rd}}
         runs = []
         for name, files in sets.items():
             for inc in (False, True):
@@ -174,7 +176,8 @@ class Check:
                             argv.append('-n')
                         if outf:
                             argv += ['-o', '@' + outf]
-                        runs.append({'cmd': 'merge', 'set': name, 'inc': inc, 'ns': ns, 'files': files, 'argv': argv, 'outfile': outf})
+                        runs.append({'cmd': 'merge', 'set': name, 'inc': inc, 'ns': ns, 'files': files, 'argv': argv, 'outfile': outf,
+                                     'order': sorted(files, reverse=True)})
         runs.append({'cmd': 'merge', 'set': 'no-args', 'inc': False, 'ns': False, 'files': {}, 'argv': ['merge'], 'outfile': None})
         runs.append({'cmd': 'merge', 'set': 'no-args', 'inc': True, 'ns': True, 'files': {}, 'argv': ['merge', '-i', '-n'], 'outfile': None})
         return runs
@@ -190,7 +193,7 @@ class Check:
             try:
                 with warnings.catch_warnings():
                     warnings.simplefilter('ignore')
-                    mc = MosCollection.from_strings([files[f] for f in sorted(files)], allow_incomplete=run['inc'])
+                    mc = MosCollection.from_strings([files[f] for f in run.get('order') or sorted(files)], allow_incomplete=run['inc'])
                     mc.merge(strict=not run['ns'])
                 want = str(mc)
             except Exception:
@@ -233,7 +236,7 @@ class Check:
             sigs.add(('merge', r['set'], r['inc'], r['ns'], bool(r['outfile']), o['status']))
             # model: status and document
             toks = []
-            for f in sorted(r['files']):
+            for f in (r.get('order') or sorted(r['files'])):
                 c = r['files'][f]
                 if c is None:
                     toks.append('U')
@@ -263,6 +266,7 @@ class Check:
         o = run_cli([{'files': case['files'], 'argv': case['argv'], 'outfile': case.get('outfile')}])[0]
         if case['argv'][0] == 'merge':
             run = {'files': case['files'], 'set': 'replay', 'outfile': case.get('outfile'),
+                   'order': [a[1:] for a in case['argv'] if a.startswith('@') and a[1:] in case['files']],
                    'inc': '--incomplete' in case['argv'] or '-i' in case['argv'], 'ns': '-n' in case['argv'] or '--non-strict' in case['argv']}
             what = self.judge_merge(run, o)
         else:
